@@ -91,6 +91,8 @@ static volatile int loop_finished = 0;
 static int watchdog_secs = 120;
 
 #define IS_MAIN() (main_vm != NULL && &janet_vm == main_vm)
+typedef struct { long susp, lis, inpipe, calls, fibers; } Truth;
+static Truth ground_truth(void);
 static __thread int c20_posting = 0;
 
 static void out(const char *fmt, ...) {
@@ -356,6 +358,17 @@ static int c20_epoll_wait(int epfd, struct epoll_event *events, int maxevents, i
         fflush(stdout);
         pthread_mutex_unlock(&c20_mu);
     }
+    if (IS_MAIN() && opt_snap && janet_vm.tq_count == 0) {
+        /* about to block without a timer: somebody must be able to wake the loop up */
+        Truth t = ground_truth();
+        if (t.susp + t.lis + t.inpipe + t.calls == 0) {
+            pthread_mutex_lock(&c20_mu);
+            out("IDLE-NOT-DONE step=%ld lc=%d (blocking in the poll phase with nothing outstanding)\n", c20_step,
+                (int) janet_atomic_load(&janet_vm.listener_count));
+            fflush(stdout);
+            _exit(4);
+        }
+    }
     return epoll_wait(epfd, events, maxevents, timeout);
 }
 
@@ -396,8 +409,6 @@ static void c20_midpoint(void) {
 }
 
 /* ------------------------------------------------------------------------------------- ground truth */
-
-typedef struct { long susp, lis, inpipe, calls, fibers; } Truth;
 
 static Truth ground_truth(void) {
     Truth t = {0, 0, 0, 0, 0};
@@ -522,6 +533,8 @@ static Janet cfun_interrupt(int32_t argc, Janet *argv) {
     (void) argv;
     janet_fixarity(argc, 0);
     janet_loop1_interrupt(&janet_vm);
+    /* the embedder acknowledges the interrupt itself (janet_timeout_cb does the same for ev/deadline's interrupt thread) */
+    janet_interpreter_interrupt_handled(&janet_vm);
     return janet_wrap_nil();
 }
 
@@ -609,7 +622,18 @@ int main(int argc, char **argv) {
             observe_queue();
             pthread_mutex_unlock(&c20_mu);
         }
-        if (opt_snap) snapshot("step");
+        if (opt_snap) {
+            snapshot("step");
+            /* logical hang criterion: nothing is outstanding (independent ground truth), nothing is runnable, no timer is
+             * armed, yet janet_loop_done() is false: the next janet_loop1 would block in the kernel for ever */
+            Truth t = ground_truth();
+            if (!janet_loop_done() && janet_vm.tq_count == 0 && janet_q_count(&janet_vm.spawn) == 0 &&
+                    t.susp + t.lis + t.inpipe + t.calls == 0) {
+                out("IDLE-NOT-DONE step=%ld lc=%d\n", c20_step, (int) janet_atomic_load(&janet_vm.listener_count));
+                fflush(stdout);
+                _exit(4);
+            }
+        }
     }
     loop_finished = 1;
     {
